@@ -82,6 +82,78 @@ fn eval(spec: &'static Spec, syms: &[Sym], h: &[usize], rep: Option<&mut Report>
     Ok(found)
 }
 
+/// fault + retry: the k-th SPI transfer of symbol `sym` fails (the call returns the error), the caller
+/// repeats the same call(s), then refreshes. Every refresh of the retry and of the suffix is judged, and
+/// the bookkeeping hook is compared with the controller after every successful call.
+fn eval_fault(spec: &'static Spec, syms: &[Sym], pre: &[usize], sym: usize, k: u64, suffix: &[Op], rep: Option<&mut Report>) -> Result<Option<(String, Vec<String>, String, String)>, String> {
+    let mut rig = Rig::simple(spec);
+    for o in flatten(syms, pre) {
+        let out = rig.apply(&o);
+        if !out.is_ok() {
+            return Err(format!("{} -> {}", o.short(), out.short()));
+        }
+    }
+    rig.board.borrow_mut().arm_fault(k, 0xC09);
+    let mut failed_at: Option<String> = None;
+    for o in &syms[sym] {
+        let out = rig.apply(o);
+        if !out.is_ok() {
+            failed_at = Some(o.short());
+            break;
+        }
+    }
+    rig.board.borrow_mut().disarm_fault();
+    let Some(failed_op) = failed_at else {
+        return Err("fault index beyond the symbol".into());
+    };
+    if rig.poisoned {
+        return Err("faulted call panicked (judged by C04)".into());
+    }
+    let mut found = None;
+    let mut nref = rig.board.borrow().chip().refreshes.len();
+    let n0 = nref;
+    let mut follow: Vec<Op> = syms[sym].clone();
+    follow.extend(suffix.iter().cloned());
+    for (i, o) in follow.iter().enumerate() {
+        let out = rig.apply(o);
+        if !out.is_ok() {
+            return Err(format!("retry {} -> {}", o.short(), out.short()));
+        }
+        let b = rig.board.borrow();
+        let chip = b.chip();
+        for r in &chip.refreshes[nref..] {
+            for (class, tags) in judge(spec, r) {
+                if found.is_none() {
+                    found = Some((class, tags, o.k.name().to_string(), format!("after {} failed at its transfer {} and was repeated, the refresh trigger in follow-up call #{} ({}) reached the controller with power={:?} asleep={}", failed_op, k, i + 1, o.short(), r.power, r.asleep)));
+                }
+            }
+        }
+        nref = chip.refreshes.len();
+        if let Some(flag) = rig.panel.power_flag() {
+            let model_on = chip.power == Power::On;
+            if flag != model_on && found.is_none() {
+                found = Some(("flag-diverged".to_string(), vec![format!("driver={} controller={:?}", flag, chip.power)], o.k.name().to_string(), format!("after {} failed at its transfer {} and follow-up call #{} ({}) the driver believes powered={} while the controller is {:?}", failed_op, k, i + 1, o.short(), flag, chip.power)));
+            }
+        }
+    }
+    if let Some(rep) = rep {
+        rep.count("fault_retry_histories", 1);
+        rep.count("refresh_triggers_judged", (nref - n0) as u64);
+        if nref > n0 {
+            rep.nontrivial(hash_str(&format!("{}|fault|{:?}|{}|{}|{}", spec.name, pre, sym, k, ops_short(suffix))));
+        }
+    }
+    Ok(found)
+}
+
+struct FCase {
+    spec: &'static Spec,
+    pre: Vec<usize>,
+    sym: usize,
+    k: u64,
+    suffix: Vec<Op>,
+}
+
 struct Case {
     spec: &'static Spec,
     h: Vec<usize>,
@@ -98,10 +170,19 @@ pub fn run(ctx: &Ctx) -> Report {
                 cases.push(Case { spec, h });
             }
         }
+        let big = spec.w * spec.h > 300 * 400;
         if ctx.tier_thorough {
-            let big = spec.w * spec.h > 300 * 400;
             for _ in 0..(if big { 2000 } else { 12000 }) {
                 cases.push(Case { spec, h: random_history(spec, &syms, 4, &mut rng) });
+            }
+            // long random walks
+            for j in 0..(if big { 500 } else { 4000 }) {
+                cases.push(Case { spec, h: random_history(spec, &syms, 5 + j % 8, &mut rng) });
+            }
+        } else {
+            // quick tier: sampled histories of 3..=6 symbols on top of the exhaustive length 1-2
+            for j in 0..(if big { 60 } else { 400 }) {
+                cases.push(Case { spec, h: random_history(spec, &syms, 3 + j % 4, &mut rng) });
             }
         }
     }
@@ -139,5 +220,98 @@ pub fn run(ctx: &Ctx) -> Report {
         }
     });
     out.merge(rep12);
+    // ---- fault + retry histories --------------------------------------------------------------
+    let mut fcases: Vec<FCase> = Vec::new();
+    for spec in panels_for(ctx) {
+        let syms = syms(spec);
+        let mut suffixes: Vec<Vec<Op>> = vec![vec![Op::new(K::Display)], vec![frame_op(spec, K::UpdateAndDisplay, 0xC09)]];
+        if ctx.tier_thorough {
+            suffixes.push(vec![Op::new(K::Clear), Op::new(K::Display)]);
+            suffixes.push(vec![Op::new(K::Display), Op::new(K::Display)]);
+        }
+        let mut pres: Vec<Vec<usize>> = vec![vec![]];
+        if ctx.tier_thorough {
+            for i in 0..syms.len() {
+                pres.push(vec![i]);
+            }
+        }
+        for pre in &pres {
+            let mut g = Grammar::default();
+            for i in pre {
+                g.step(spec, &syms[*i]);
+            }
+            for si in 0..syms.len() {
+                if !g.allows(spec, &syms[si]) {
+                    continue;
+                }
+                // number of SPI transfers of the symbol in this context (dry run)
+                let n = {
+                    let mut rig = Rig::simple(spec);
+                    let mut ok = true;
+                    for o in flatten(&syms, pre) {
+                        ok &= rig.apply(&o).is_ok();
+                    }
+                    let w0 = rig.board.borrow().spi_writes;
+                    for o in &syms[si] {
+                        ok &= rig.apply(o).is_ok();
+                    }
+                    let w1 = rig.board.borrow().spi_writes;
+                    if ok {
+                        w1 - w0
+                    } else {
+                        0
+                    }
+                };
+                if n == 0 {
+                    continue;
+                }
+                // every early transfer (commands and parameters live there), both ends and seeded interior points
+                let head = if ctx.tier_thorough { 96 } else { 40 };
+                let mut ks: Vec<u64> = (0..n.min(head)).collect();
+                for k in [n - 1, n.saturating_sub(2), n / 2, n / 3] {
+                    if !ks.contains(&k) {
+                        ks.push(k);
+                    }
+                }
+                for _ in 0..(if ctx.tier_thorough { 8 } else { 2 }) {
+                    let k = rng.below(n);
+                    if !ks.contains(&k) {
+                        ks.push(k);
+                    }
+                }
+                for k in ks {
+                    for (j, suf) in suffixes.iter().enumerate() {
+                        if !ctx.tier_thorough && pre.is_empty() && j == 1 && k % 3 != 0 {
+                            continue;
+                        }
+                        fcases.push(FCase { spec, pre: pre.clone(), sym: si, k, suffix: suf.clone() });
+                    }
+                }
+            }
+        }
+    }
+    let frep = par_run(&fcases, ctx.threads, |_, c, rep| {
+        let spec = c.spec;
+        let syms = syms(spec);
+        rep.eval(spec.name);
+        match eval_fault(spec, &syms, &c.pre, c.sym, c.k, &c.suffix, Some(rep)) {
+            Err(_) => rep.count("fault_histories_not_judged", 1),
+            Ok(None) => {}
+            Ok(Some((class, mut tags, entry, detail))) => {
+                tags.push(format!("fault-in:{}", sym_kinds(&syms, &[c.sym])));
+                if !c.pre.is_empty() {
+                    // is the predecessor needed?
+                    let without = eval_fault(spec, &syms, &[], c.sym, c.k, &c.suffix, None).ok().flatten().map(|f| f.0 == class).unwrap_or(false);
+                    if !without {
+                        tags.push(format!("hist:{}", sym_kinds(&syms, &c.pre)));
+                    }
+                }
+                let mut ops = flatten(&syms, &c.pre);
+                ops.extend(syms[c.sym].iter().cloned());
+                rep.fail(Failure { panel: spec.name.into(), entry, class, tags, detail, case: case_json(spec, &variant, &ops).set("fault_at_transfer", c.k).set("then", "the same call(s) repeated").set("suffix", ops_json(&c.suffix)) });
+            }
+        }
+    });
+    out.merge(frep);
     out
 }
